@@ -1400,6 +1400,8 @@ func boundary(suite string, tier string) {
 		}
 	case "file":
 		runDefaultFile()
+		runMgr("plain")
+		runMgr("dup")
 		baseCases("basefile")
 		for _, fr := range fields {
 			for _, p := range pool(fr.f) {
@@ -1530,6 +1532,8 @@ func replay(line string) {
 		return
 	}
 	switch w[0] {
+	case "mgr":
+		runMgr(w[1])
 	case "val":
 		replayVal(w)
 	case "src":
